@@ -1,6 +1,6 @@
 # Job table for ./check (exec'd by the driver). J(run, quick_checks, thorough_checks, shards=…, race=…)
 PROPS = {
-    "C01": [J("^TestC01Ledger$", 700, 6000, shards=8), J("^TestC01Concurrent$", 60, 400, shards=6, race=True)],
+    "C01": [J("^TestC01Ledger$", 700, 6000, shards=8), J("^TestC01Concurrent$", 60, 400, shards=6, race=True), J("^TestC01ManagerFaults$", 3000, 30000, shards=4)],
     "C02": [J("^TestC02PoolHistories$", 600, 5000, shards=6), J("^TestC02Manager$", 4000, 60000, shards=6), J("^TestC02Slicing$", 300, 2500, shards=4)],
     "C03": [J("^TestC03MinBalance$", 900, 8000, shards=8)],
     "C04": [J("^TestC04SignedEndpoints$", 4000, 40000, shards=8)],
